@@ -608,6 +608,115 @@ def expand_pipeline(bld, defs, bid, kind):
     cb["expanded"] = kind
 
 
+# ------------------------------------------------------------------------------------------------ awaits of new async helpers
+
+def async_helper(t, fns, known):
+    """(helper key, coroutine key, [argument index per captured variable]) when t calls a local `async fn` that the
+    rules do not know by name (an extracted helper): its body lives in the coroutine `helper::{closure#0}`"""
+    if known is None:
+        return None
+    k = t.get("resolved") if t.get("resolved") in fns else (t.get("callee") if t.get("callee") in fns else None)
+    if k is None or k in known:
+        return None
+    h = fns[k]
+    if not h.get("async") or not h.get("blocks"):
+        return None
+    for b in h["blocks"]:
+        for st in b.get("stmts") or []:
+            rv = st.get("rv") or {}
+            if st.get("k") == "assign" and st["dst"].get("l") == 0 and rv.get("k") == "agg" and rv.get("ak") == "coroutine" and rv.get("def") in fns:
+                idx = []
+                for o in rv.get("ops", []):
+                    l = plain(o)
+                    if l is None or not (1 <= l <= h["arg_count"]):
+                        return None
+                    idx.append(l - 1)
+                return k, rv["def"], idx
+    return None
+
+
+def expand_await(bld, defs, bid, info):
+    rec, fns, blocks = bld.rec, bld.fns, bld.blocks
+    hk, ck, idx = info
+    t = blocks[bid]["term"]
+    ln = t.get("ln")
+    body = fns[ck]
+    if len(body["blocks"]) > 2000:
+        raise Giveup("helper too large")
+    # the await that consumes the returned future: into_future .. Pin::new_unchecked .. poll -> switch(Ready | Pending)
+    cur = t.get("target")
+    poll_b = None
+    for _ in range(14):
+        if cur is None:
+            break
+        tt = blocks[cur].get("term") or {}
+        if tt.get("k") == "call" and (tt.get("callee") or "") == "std::future::Future::poll":
+            poll_b = cur
+            break
+        if tt.get("k") in ("goto", "call", "drop") and tt.get("target") is not None:
+            cur = tt["target"]
+        else:
+            break
+    if poll_b is None:
+        raise Giveup("no await of the returned future found")
+    pt = blocks[poll_b]["term"]
+    pl = pt["dst"]["l"]
+    sw = blocks[pt["target"]].get("term") or {}
+    if sw.get("k") != "switch":
+        raise Giveup("poll result not switched on")
+    ready = [tb for v, tb in sw["targets"] if v == 0]
+    if not ready:
+        raise Giveup("no Ready arm")
+    ready = ready[0]
+    lbase, bbase = len(bld.locals), len(bld.blocks)
+    lmap = lambda l: l + lbase
+    bmap = lambda b: b + bbase
+    for lr in body["locals"]:
+        nl = dict(lr)
+        nl["l"] = lmap(lr["l"])
+        nl["inlined_from"] = ck
+        bld.locals.append(nl)
+    for v in body.get("vars", []):
+        rec.setdefault("vars", []).append({"name": v["name"], "place": _renumber(v["place"], lmap, bmap), "inlined_from": ck})
+    for hb in body["blocks"]:
+        nb = _renumber(hb, lmap, bmap)
+        nb["id"] = bmap(hb["id"])
+        nb["inlined_from"] = ck
+        tt = nb.get("term")
+        if tt and tt["k"] == "return":
+            nb.setdefault("stmts", []).append(assign(pl, variant_agg("std::task::Poll", "Ready", 0, [cp(lmap(0))]), tt.get("ln")))
+            nb["term"] = goto(ready, tt.get("ln"))
+        bld.blocks.append(nb)
+    # the Ready arm reads `(poll_result as Ready).0`: let it read the helper's return value directly (same value, and
+    # what is known about its parts - e.g. a flag in a returned tuple - stays visible to the dataflow)
+    cur_r = ready
+    for _ in range(4):
+        rb = blocks[cur_r]
+        hit = False
+        for st in rb.get("stmts") or []:
+            rv = st.get("rv") or {}
+            if st.get("k") == "assign" and rv.get("k") == "use":
+                o = rv["op"]
+                for kk in ("move", "copy"):
+                    if kk in o and o[kk].get("l") == pl and len(o[kk].get("p") or []) == 2 and isinstance(o[kk]["p"][0], dict) and o[kk]["p"][0].get("downcast") == "Ready":
+                        st["rv"] = use(mv(lmap(0)))
+                        hit = True
+        tt = rb.get("term") or {}
+        if hit or tt.get("k") != "goto":
+            break
+        cur_r = tt["target"]
+    rec.setdefault("spliced", []).append(ck)
+    env = bld.local(body["locals"][1]["ty"])
+    pre = [assign(env, {"k": "agg", "ak": "coroutine", "def": ck, "ops": [t["args"][i] for i in idx]}, ln),
+           assign(lmap(1), use(mv(env)), ln)]
+    if len(body["locals"]) > 2 and len(rec["locals"]) > 2 and rec["locals"][2]["ty"] == body["locals"][2]["ty"]:
+        pre.append(assign(lmap(2), use(cp(2)), ln))
+    cb = blocks[bid]
+    cb.setdefault("stmts", []).extend(pre)
+    cb["term"] = goto(bmap(0), ln)
+    cb["expanded"] = "await:" + hk
+
+
 def terminal_kind(t):
     n = t.get("callee") or ""
     if n.startswith("std::iter::Iterator::") and tail(n) in TERMINALS:
@@ -617,7 +726,7 @@ def terminal_kind(t):
     return None
 
 
-def expand_fn(rec, fns):
+def expand_fn(rec, fns, known=None):
     """rewrite one function; returns the list of expansions made (possibly empty)"""
     if not rec.get("blocks") or rec.get("derived") or rec.get("from_expansion"):
         return rec, []
@@ -632,20 +741,24 @@ def expand_fn(rec, fns):
                 continue
             vc = value_combinator(t)
             tk = terminal_kind(t)
-            if vc or tk:
-                target = (b["id"], vc, tk)
+            aw = async_helper(t, fns, known) if rec.get("coroutine") else None
+            if vc or tk or aw:
+                target = (b["id"], vc, tk, aw)
                 break
         if target is None:
             break
         if work is None:
             work = copy.deepcopy(rec)
-        bid, vc, tk = target
+        bid, vc, tk, aw = target
         snapshot = (len(work["blocks"]), len(work["locals"]), copy.deepcopy(work["blocks"][bid]), len(work.get("vars", [])))
         touched = None
         try:
             bld = Builder(work, fns)
             defs = defs_of(work)
-            if vc:
+            if aw:
+                expand_await(bld, defs, bid, aw)
+                done.append(("await " + aw[0], snapshot[2]["term"].get("ln")))
+            elif vc:
                 expand_value(bld, defs, bid, *vc)
                 done.append(("%s::%s" % vc, work["blocks"][bid].get("term", {}).get("ln")))
             else:
@@ -669,10 +782,10 @@ def expand_fn(rec, fns):
     return work, done
 
 
-def expand_all(fns):
+def expand_all(fns, known=None):
     report = {}
     for k in sorted(fns):
-        nr, done = expand_fn(fns[k], fns)
+        nr, done = expand_fn(fns[k], fns, known)
         if done:
             fns[k] = nr
             report[k] = done
